@@ -7,6 +7,9 @@ source - into the statement language `LS` of JanetModel/Thread/LockCert.lean:
                        every way out - that contract is itself checked on those two functions, `pre = true`)
     access             a statement (or an if / loop condition: flag `acc`) that reads or writes the channel's queues, `closed`, `limit`
     ret / panic        `return ..`;  `janet_panic*(..)` / `janet_await()` / JANET_OUT_OF_MEMORY (leave the function)
+    (ite false panic skip)  in front of a statement / condition that calls something that MAY panic: argument checks
+                       (janet_get*, janet_fixarity, janet_arity, janet_opt*) and janet_chan_pack as long as it lets the panic of
+                       janet_marshal through (no janet_try .. janet_restore around the call)
     brk / cont, seq, ite, loop, skip
 The path walk itself is NOT done here: Lean's `chk` walks the tree and `chk_sound` proves what acceptance means for every path.
 Branches on `janet_chan_is_threaded(..)` / `is_threaded` are resolved to the threaded side (the certificate is about thread
@@ -37,6 +40,10 @@ _UNLOCK = re.compile(r"\bjanet_chan_unlock\s*\(")
 _CALLREL = re.compile(r"\bjanet_channel_(?:push|pop)_with_lock\s*\(")
 _ACCESS = re.compile(r"\b(?:channel|chan)\s*->\s*(?:items|read_pending|write_pending|closed|limit)\b|\bjanet_channel_has_reader\s*\(")
 _PANIC = re.compile(r"\bjanet_panic\w*\s*\(|\bjanet_await\s*\(|\bJANET_OUT_OF_MEMORY\b|\bjanet_exit\s*\(")
+# argument checks and callees that may panic (longjmp out of the function) without a janet_panic in the statement itself
+_MAYPANIC = re.compile(r"\bjanet_(?:get\w+|fixarity|arity|opt\w+)\s*\(")
+_PACK = re.compile(r"\bjanet_chan_pack\s*\(")
+MAYPANIC = "(.ite false .panic .skip)"
 _THREADED = re.compile(r"^\s*(!?)\s*(?:janet_chan_is_threaded\s*\(\s*\w+\s*\)|is_threaded)\s*$")
 
 
@@ -137,6 +144,14 @@ def _seq(xs):
     return r
 
 
+def _may(txt, stats):
+    """does the statement / condition contain a call that can panic? (janet_chan_pack: only while it lets janet_marshal's panic through)"""
+    if _MAYPANIC.search(txt) or (stats.get("pack_may_panic") and _PACK.search(txt)):
+        stats["maypanic"] = stats.get("maypanic", 0) + 1
+        return True
+    return False
+
+
 def _head(fn, head):
     if _LOCK.search(head) or _UNLOCK.search(head) or _CALLREL.search(head) or _PANIC.search(head):
         raise ExtractError("%s: lock operation / panic inside a condition: %r" % (fn, head[:80]))
@@ -153,6 +168,8 @@ def _tr(fn, n, stats):
         if kinds > 1:
             raise ExtractError("%s: several lock operations in one statement: %r" % (fn, txt[:80]))
         parts = []
+        if _may(txt, stats):
+            parts.append(MAYPANIC)
         if _LOCK.search(txt):
             parts.append(".lock")
             stats["lock"] += 1
@@ -183,14 +200,17 @@ def _tr(fn, n, stats):
             side = n[3] if m.group(1) else n[2]
             return _tr(fn, side, stats) if side is not None else ".skip"
         acc = _head(fn, n[1])
+        pre = [MAYPANIC] if _may(n[1], stats) else []
         t = _tr(fn, n[2], stats) if n[2] is not None else ".skip"
         e = _tr(fn, n[3], stats) if n[3] is not None else ".skip"
         if acc == "false" and t == ".skip" and e == ".skip":
-            return ".skip"
-        return "(.ite %s %s %s)" % (acc, t, e)
+            return _seq(pre)
+        return _seq(pre + ["(.ite %s %s %s)" % (acc, t, e)])
     if k == "loop":
         acc = _head(fn, n[1])
         b = _tr(fn, n[2], stats) if n[2] is not None else ".skip"
+        if _may(n[1], stats):
+            b = _seq([MAYPANIC, b])
         if acc == "false" and b == ".skip":
             return ".skip"
         return "(.loop %s %s)" % (acc, b)
@@ -200,9 +220,16 @@ def _tr(fn, n, stats):
 def extract(tree):
     ev = strip_comments(read(tree, "src/core/ev.c"))
     progs = []
+    # janet_chan_pack runs janet_marshal, which panics on values it cannot marshal: unless janet_chan_pack catches that
+    # (janet_try .. janet_restore around the call), every call of janet_chan_pack is a possible panic site
+    pk = func_body(ev, "janet_chan_pack")
+    pack_may_panic = bool(re.search(r"\bjanet_marshal\s*\(", pk)) and not (
+        re.search(r"\bjanet_try\s*\(", pk) and re.search(r"\bjanet_restore\s*\(", pk)
+        and pk.find("janet_try") < pk.find("janet_marshal(") < pk.find("janet_restore"))
     for fn, pre in FUNCS:
         body = _corefn_body(ev, fn) if fn.startswith("cfun_") else func_body(ev, fn)
-        stats = {"lock": 0, "unlock": 0, "callRel": 0, "access": 0, "ret": 0, "panic": 0, "threaded_branches": 0}
+        stats = {"lock": 0, "unlock": 0, "callRel": 0, "access": 0, "ret": 0, "panic": 0, "threaded_branches": 0, "maypanic": 0,
+                 "pack_may_panic": pack_may_panic}
         term = _tr(fn, ("block", _nodes(body.strip()[1:-1])), stats)
         if stats["lock"] + stats["unlock"] + stats["callRel"] == 0:
             raise ExtractError("%s no longer contains any lock operation" % fn)
@@ -217,7 +244,7 @@ def extract(tree):
         if prev:
             users.add(prev[-1])
     outside = sorted(users - set(fn for fn, _ in FUNCS) - {"janet_chan_lock", "janet_chan_unlock"})
-    return {"progs": progs, "outside": outside}
+    return {"progs": progs, "outside": outside, "pack_may_panic": pack_may_panic}
 
 
 def render(facts):
@@ -229,7 +256,7 @@ def render(facts):
     o.append("abbrev lockProgs : List (String × Bool × LS) := [")
     rows = []
     for fn, pre, term, stats in facts["progs"]:
-        rows.append('  -- %s: %s\n  ("%s", %s, %s)' % (fn, ", ".join("%d %s" % (v, k) for k, v in stats.items() if v), fn, "true" if pre else "false", term))
+        rows.append('  -- %s: %s\n  ("%s", %s, %s)' % (fn, ", ".join("%d %s" % (v, k) for k, v in stats.items() if v and k != "pack_may_panic"), fn, "true" if pre else "false", term))
     o.append(",\n".join(rows))
     o.append("]\n")
     o.append("/-- functions that call janet_chan_lock / janet_chan_unlock but are NOT covered by the certificate -/")
